@@ -5,8 +5,11 @@
 package main
 
 import (
+	"encoding/json"
 	"fmt"
 	"os"
+	"os/exec"
+	"path/filepath"
 	"sort"
 	"strings"
 )
@@ -58,6 +61,40 @@ func main() {
 	}
 	if tier != "thorough" {
 		tier = "quick"
+	}
+	if replay != "" {
+		// Case lists are a pure function of (check, tier, VERIF_SEED): a violation is replayed
+		// by re-running the check with the seed and tier recorded in the replay file; the
+		// recorded signature tells which case to look for.
+		var rf struct {
+			Property  string `json:"property"`
+			Seed      int64  `json:"seed"`
+			Tier      string `json:"tier"`
+			Signature string `json:"signature"`
+		}
+		b, err := os.ReadFile(replay)
+		if err != nil || json.Unmarshal(b, &rf) != nil {
+			fmt.Fprintf(os.Stderr, "cannot read replay file %s\n", replay)
+			os.Exit(3)
+		}
+		fmt.Printf("replaying %s: seed=%d tier=%s\n  expecting signature: %s\n", replay, rf.Seed, rf.Tier, rf.Signature)
+		os.Setenv("VERIF_SEED", fmt.Sprint(rf.Seed))
+		if rf.Tier == "thorough" || rf.Tier == "quick" {
+			tier = rf.Tier
+		}
+		if os.Getenv("VERIF_OUT_DIR") == "" {
+			os.Setenv("VERIF_OUT_DIR", filepath.Join(os.TempDir(), "verif-replay-out"))
+		}
+		// evid read its environment at start-up: re-exec with the new one
+		cmd := exec.Command(os.Args[0], id, tier)
+		cmd.Stdout, cmd.Stderr, cmd.Env = os.Stdout, os.Stderr, os.Environ()
+		if err := cmd.Run(); err != nil {
+			if ee, ok := err.(*exec.ExitError); ok {
+				os.Exit(ee.ExitCode())
+			}
+			os.Exit(3)
+		}
+		os.Exit(0)
 	}
 	os.Exit(fn(tier, replay))
 }
